@@ -341,7 +341,7 @@ func setup(string) {
 		panic(fmt.Sprintf("c11: VerifBuildAppender: %v", err))
 	}
 	dir := sk.ScratchDir()
-	defer os.RemoveAll(dir)
+	defer kit.RemoveScratch(dir)
 	t := sk.Open(sk.L1Info, dir)
 	t.DB.Close()
 	if templateDB, err = os.ReadFile(t.Path); err != nil {
@@ -614,7 +614,7 @@ func sortedU64(m map[uint64]bool) []uint64 {
 func run(c *mc.Ctx, u mc.Unit) {
 	p := u.Params.(params)
 	n, dir := freshNode()
-	defer os.RemoveAll(dir)
+	defer kit.RemoveScratch(dir)
 	defer n.Close()
 	w := newWorld()
 	var cur *blockBuilder
